@@ -619,6 +619,7 @@ func (c *Cluster) healPhase() {
 	} else {
 		r.probe("heal-converged")
 		c.healedInMs = (c.Sim.Now() - healStart) / 1_000_000
+		c.healConverged = true
 	}
 }
 
@@ -846,7 +847,17 @@ func (c *Cluster) checkHangs() {
 		if op.Inc.Node.Inc != op.Inc {
 			continue // its process died: the call died with it
 		}
-		due := op.InvokeNs + op.TimeoutMs*1_000_000
+		// The timeout of a future runs from the moment SubmitOperation returned it. The call
+		// itself can queue behind the node lock for a long time on an overloaded node (every
+		// append holds the lock across its fsync): only after a heal phase that converged - the
+		// workload had stopped and everything drained - is a call that never returned a hang.
+		due := op.SubmittedNs + op.TimeoutMs*1_000_000
+		if op.SubmittedNs == 0 {
+			if !c.healConverged {
+				continue
+			}
+			due = op.InvokeNs + op.TimeoutMs*1_000_000
+		}
 		if now > due+2*c.Cfg.electionNs() {
 			r.violate("C18", "future-hang", fmt.Sprintf("type=%d", op.Type), "op%d (type %d) at %s invoked at %dms with timeout %dms has not resolved by %dms",
 				op.ID, op.Type, op.Inc.Name(), op.InvokeNs/1_000_000, op.TimeoutMs, now/1_000_000)
